@@ -45,6 +45,48 @@ def make_configs(rng, thorough):
     return cfgs
 
 
+def uncertainty_flag_block(ctx, rng):
+    """y_is_mean / sigma = 0 interpolate regardless of predictor_with_uncertainty and of sigma (full model): the in-sample
+    prediction misses y by exactly -jitter * (K + jitter I)^-1 (y - mu) (NumPy dense solve), added after seeded change C16-1"""
+    import mellon
+    from mellon.cov import Matern52, ExpQuad
+    n_done = 0
+    nrng = np.random.default_rng(rng.randrange(2 ** 31))
+    for kern, ls in ((Matern52, 0.8), (ExpQuad, 1.5)):
+        for sigma in (0.0, 0.3, 1.5):
+            for wu in (False, True):
+                for jitter in (1e-6, 1e-3):
+                    n = 14
+                    x = nrng.normal(size=(n, 2))
+                    y = nrng.normal(size=n)
+                    mu = 0.4
+                    cov = kern(ls)
+                    est = mellon.FunctionEstimator(cov_func=cov, gp_type="full", mu=mu, sigma=sigma, jitter=jitter, y_is_mean=True,
+                                                   predictor_with_uncertainty=wu, jit=False)
+                    o = None
+                    try:
+                        pred = np.asarray(est.fit_predict(x, y), dtype=float)
+                    except Exception as e:      # noqa
+                        o = type(e).__name__
+                    n_done += 1
+                    desc = {"kernel": repr(cov), "sigma": sigma, "predictor_with_uncertainty": wu, "jitter": jitter, "y_is_mean": True,
+                            "x": x.tolist(), "y": y.tolist(), "mu": mu,
+                            "call": "FunctionEstimator(cov_func, gp_type='full', mu, sigma, jitter, y_is_mean=True, predictor_with_uncertainty).fit_predict(x, y)"}
+                    if o is not None:
+                        ctx.violation("C16|uncertainty-flag|%s" % o, "fit fails", dict(desc, exception=o))
+                        continue
+                    K = np.asarray(cov(x, x), dtype=float)
+                    A = K + jitter * np.eye(n)
+                    w = np.linalg.solve(A, y - mu)
+                    expected = y - jitter * w
+                    tol = 64 * n * U * np.linalg.cond(A) * (np.abs(y).max() + abs(mu)) + 1e-12
+                    if not (np.abs(pred - expected) <= tol).all():
+                        ctx.violation("C16|uncertainty-flag|interpolation", "with y_is_mean the training values are not interpolated "
+                                      "(in-sample prediction - y != -jitter (K + jitter I)^-1 (y - mu))",
+                                      dict(desc, max_dev=float(np.abs(pred - expected).max()), bound=float(tol)))
+    return n_done
+
+
 def estimator(cfg, env, mu, sigma):
     import mellon
     kw = dict(cov_func=env["cov"], jitter=cfg["jitter"], mu=mu, sigma=sigma, y_is_mean=cfg["noise"] == "ymean", jit=False)
@@ -160,6 +202,8 @@ def run(ctx):
     n_eval = 0
     if gen is not None and not any(b.kind in ("proof", "gate") for b in ctx.broken):
         n_eval = C01.correspond(ctx, items, meta)
+    n_flag = uncertainty_flag_block(ctx, rng)
+    counts["uncertainty_flag"] = n_flag
     ctx.cov["evaluations"] = n_eval
     ctx.cov["traces_validated_against_impl"] = n_eval
     ctx.cov["distinct_nontrivial"] = len(dist)
